@@ -1,5 +1,7 @@
 import OrsoVerif.Model.Kernels
+import OrsoVerif.Model.PyDict
 import OrsoVerif.Generated.CallSitesExpr
+import OrsoVerif.Generated.DictGlue
 /-!
 # C10 — the Python call sites of the compiled helpers
 
@@ -13,7 +15,7 @@ as the kernel's limit, the row returned for a single column and the limit the di
 `t.collect` are `Gen.CallSites.*`, regenerated from the working tree on every run.
 -/
 namespace CallSites
-open Kernels
+open Kernels PyDictM
 
 variable {α : Type}
 
@@ -102,23 +104,36 @@ structure RowClass where
 def createClass (schema : List String) (tuplesOnly : Bool) : RowClass := ⟨schema, tuplesOnly⟩
 
 inductive RowArg (α : Type) where
-  | dict (exact : Bool) (d : List (String × α))   -- `exact`: a `dict` itself, not an instance of a subclass (OrderedDict, defaultdict, …)
+  | dict (d : PyDict α)   -- a dictionary (`d.exact`: a `dict` itself, not an instance of OrderedDict, defaultdict, …) with keys of any kind
   | tuple (t : List α)
 
-/-- `cls(data)` (`row.py:77-93`).  `none`: the row is not the extraction -- a dictionary given to a
-tuples-only class (outside that class's contract: the real object holds the dictionary's keys), a
-subclass instance that the guard does not admit (the keys again) or that reaches the helper uncopied
-(`TypeError`: the compiled helper takes exact dictionaries only).  Which of these can happen is
-decided by the generated `rowGuardAdmitsSubclass` / `rowCopiesSubclass` (the `if` in the source). -/
-def rowNewWith (admitsSub copiesSub : Bool) (null : α) (cls : RowClass) : RowArg α → Option (List α)
+/-- `cls(data)` (`row.py:77-96`) with the test `guard` in front of the helper and the statements `prepare` between
+that test and the helper call.  `none`: the row is not an extraction -- a dictionary given to a tuples-only class
+(outside that class's contract: the real object holds the dictionary's keys), a dictionary the guard does not admit
+(the keys again) or one that reaches the helper while not an exact `dict` (`TypeError`: the compiled helper takes exact
+dictionaries only).  The helper finds what a lookup of the field name -- an exact `str` -- finds (`helperView`). -/
+def rowNewOf (guard : PyDict α → Bool) (prepare : PyDict α → PyDict α) (null : α) (cls : RowClass) :
+    RowArg α → Option (List α)
   | .tuple t => some t
-  | .dict exact d =>
+  | .dict d =>
     if cls.tuplesOnly then none
-    else if exact || (admitsSub && copiesSub) then some (DictRow.extract null cls.fields d)
+    else if guard d then
+      let handed := prepare d
+      if handed.exact then some (DictRow.extract null cls.fields (helperView handed.items)) else none
     else none
 
+/-- `cls(data)` with the guard and the statements of the source as it is now (`Gen.DictGlue`, regenerated from the
+working tree on every run). -/
 def rowNew (null : α) (cls : RowClass) (arg : RowArg α) : Option (List α) :=
-  rowNewWith Gen.CallSites.rowGuardAdmitsSubclass Gen.CallSites.rowCopiesSubclass null cls arg
+  rowNewOf Gen.DictGlue.rowGuard Gen.DictGlue.rowPrepare null cls arg
+
+/-- The step `if not all(type(key) is str for key in data): data = {str(key): value for key, value in data.items()}`:
+a record with a key that is not text is re-keyed by the text of its keys. -/
+def rekeyStep (d : PyDict α) : PyDict α :=
+  if !(d.allKeys fun key => key.exact) then d.comp (fun key _ => pyStr key) (fun _ value => value) else d
+
+/-- `if type(data) is not dict: data = dict(data)` -/
+def copyStep (d : PyDict α) : PyDict α := if !d.exact then d.copy else d
 
 /-- A session: classes are created (by `Row.create_class`, `DataFrame(...)`, `from_arrow`, …) and
 rows are built through any class created so far. -/
